@@ -2,7 +2,7 @@
    Observation text must match harness/suites/c10.go byte for byte.
 
    Case layout (sts.scenarios, sts.policy):
-     arg0  configuration bits: D DisableSTS, L SSL, F DisableSTSFallback, S SASL PLAIN
+     arg0  configuration bits: D DisableSTS, L SSL, F DisableSTSFallback, S SASL PLAIN, P SupportedCaps lists sts
      arg1  policy held before the first Connect: "" or "port,duration,receivedAgo[,failedAgo]" (seconds)
      arg2… "C" = a Connect call; "L<age>,<dial>,<hs>,<end>" = a connection script (age: scripted
            seconds passing before the dial; end x = the peer hangs up together with its last line, so
@@ -19,7 +19,7 @@ Definition s10_PLAIN := Eval vm_compute in bs "PLAIN".
 
 Definition c10_cfg (bits : str) : cap_cfg :=
   mkCfg (if memb 83 bits then Some s10_PLAIN else None) (memb 68 bits) (memb 76 bits) (memb 70 bits)
-        [] true None [] (bs "me") (bs "user") (bs "Real Name").
+        (if memb 80 bits then [(s_sts, [])] else []) true None [] (bs "me") (bs "user") (bs "Real Name").
 
 (* ---- script parsing ------------------------------------------------------ *)
 Record dleg := mkDLeg {
